@@ -1401,6 +1401,11 @@ def check_hist(spec, claims=None, driver=None):
                 # leaf classes of the tree and the input dtype, and this (object, input) is not judged further
                 kinds = set(lf[1] for lf in C1.leaves(s0))
                 cause = "nufft" if kinds & {"nufft", "nufftadj", "sense", "convsense", "convimage"} else "+".join(sorted(kinds))
+                # the recorded finding is the apodisation of a NARROW kernel (width < 3, outside C06's width range) on a real
+                # single-precision array; a non-finite NUFFT output for any other kernel keeps the general key
+                narrow = [lf for lf in C1.leaves(s0) if lf[1] in ("nufft", "nufftadj") and float(lf[2].get("width", 4)) < 3]
+                if cause == "nufft" and narrow and x.dtype == np.float32:
+                    cause = "nufft-width-below-3-float32"
                 dk = {"c": "complex", "f": "real"}.get(x.dtype.kind, "integer")
                 if not any(v["key"].startswith("C02:history:nonfinite-output") for v in viol):
                     viol.append(dict(key="C02:history:nonfinite-output:%s-input:%s" % (dk, cause),
